@@ -63,6 +63,25 @@ type Scenario struct {
 	// Mask: configuration overrides under which the property's known findings cannot manifest
 	// (DESIGN 5.3).  A violation counts as a known finding only if it disappears under the mask.
 	Mask map[string]int
+	// AltMasks: further configurations under which the known findings cannot manifest either; a run generated under
+	// one of them counts as masked (its violations are never attributed to a known finding)
+	AltMasks []map[string]int
+}
+
+// maskedCfg reports whether cfg already satisfies the scenario's mask or one of its alternative masks.
+func (sc *Scenario) maskedCfg(cfg map[string]int) bool {
+	for _, m := range append([]map[string]int{sc.Mask}, sc.AltMasks...) {
+		ok := m != nil
+		for k, v := range m {
+			if cfg[k] != v {
+				ok = false
+			}
+		}
+		if ok {
+			return true
+		}
+	}
+	return false
 }
 
 var scenarios = map[string]*Scenario{}
@@ -393,12 +412,7 @@ func Main(t *testing.T) {
 				}
 			}
 			if mask := scenarios[prop].Mask; mask != nil {
-				fv.MaskApplied = true
-				for k, v := range mask {
-					if mc.Cfg[k] != v {
-						fv.MaskApplied = false
-					}
-				}
+				fv.MaskApplied = scenarios[prop].maskedCfg(mc.Cfg)
 				if !fv.MaskApplied {
 					masked := *mc
 					masked.Cfg = map[string]int{}
@@ -476,16 +490,13 @@ func replay(t *testing.T, path, out string) {
 	o.Reproduced = c.ExpectSig == "" && len(r.Viol) > 0 || hasSig(r.Viol, c.ExpectSig)
 	o.HashMatch = c.ExpectHash == "" || c.ExpectHash == o.Hash
 	if mask := scenarios[c.Prop].Mask; mask != nil && o.Reproduced {
-		o.MaskApplied = true
+		o.MaskApplied = scenarios[c.Prop].maskedCfg(c.Cfg)
 		masked := c
 		masked.Cfg = map[string]int{}
 		for k, v := range c.Cfg {
 			masked.Cfg[k] = v
 		}
 		for k, v := range mask {
-			if c.Cfg[k] != v {
-				o.MaskApplied = false
-			}
 			masked.Cfg[k] = v
 		}
 		if !o.MaskApplied {
